@@ -53,7 +53,9 @@ def oracle(case, recs, out, stats):
             # a value computed after a formula *caught* the recursion-limit error is depth-dependent
             # (known finding); recognised only when the limit was really hit in this history and
             # some formula can catch it
-            if case["maxdepth"] and X.has_catch_all(case) and _limit_hit(case, k):
+            if (case["maxdepth"] and X.has_catch_all(case) and rec.get("model") == rec["impl"]
+                    and _limit_hit(case, k)):
+                # …and only when the (bug-faithful) Lean mechanism model predicts this very answer
                 key = KNOWN_DEEP
             elif case["maxdepth"] and r.startswith("err Formula Deep") or (
                     case["maxdepth"] and _limit_hit(case, k) and r.startswith("err")):
